@@ -1049,6 +1049,22 @@ fn call_common<'tcx>(
                     }
                 }
             }
+            // how the callee is inlined (a function that is not #[inline(always)] is a real call in an unoptimised build)
+            if matches!(tcx.def_kind(*did), DefKind::Fn | DefKind::AssocFn) {
+                let mut target = *did;
+                if tcx.trait_of_assoc(*did).is_some() {
+                    if let Ok(Some(inst)) = ty::Instance::try_resolve(tcx, env, *did, gargs) {
+                        if matches!(tcx.def_kind(inst.def_id()), DefKind::Fn | DefKind::AssocFn) {
+                            target = inst.def_id();
+                        }
+                    }
+                }
+                if tcx.intrinsic(target).is_some() {
+                    t.set("callee_inline", J::s("Intrinsic"));
+                } else {
+                    t.set("callee_inline", J::s(&format!("{:?}", tcx.codegen_fn_attrs(target).inline)));
+                }
+            }
             // does the callee diverge?
             let sig = tcx.fn_sig(*did).instantiate_identity().skip_norm_wip();
             if sig.output().skip_binder().is_never() {
